@@ -130,8 +130,10 @@ def run():
         jobs.append([fi, os.path.join(sc, 'out%d.ndjson' % i),
                      os.path.join(sc, 'work%d' % i)])
     with ThreadPoolExecutor(max_workers=nproc) as ex:
+        home = chk.private_home()    # random programs: nothing to cache
         list(ex.map(lambda j: chk.run_py('checks/c03_driver.py', j,
-                                         timeout=7000), jobs))
+                                         timeout=7000,
+                                         env_extra={'HOME': home}), jobs))
     recs = []
     for j in jobs:
         recs += open(j[1]).readlines()
